@@ -270,6 +270,94 @@ func MarshalHistories(r *ev.Run, prefix string) {
 	}
 	rec()
 	r.Set("marshal_history_initial_results", initial)
+	sharedOrderArrays(r, prefix)
+}
+
+// sharedOrderArrays: PropertyOrder lists of several live schemas that are prefixes of ONE backing
+// array (long = append(base, ...); child.PropertyOrder = parentOrder[:1]). Every sequence of <=3
+// Marshal calls over them gives each schema the bytes it has when it is built alone, and the
+// backing array is not written to (not even behind the end of the shorter lists).
+func sharedOrderArrays(r *ev.Run, prefix string) {
+	type world struct {
+		subjects []*jsonschema.Schema
+		arrays   [][]string
+	}
+	build := func(share bool) world {
+		lst := func(arr []string, n int) []string {
+			if share {
+				return arr[:n]
+			}
+			return append([]string(nil), arr[:n]...)
+		}
+		props := func(names ...string) map[string]*jsonschema.Schema {
+			m := map[string]*jsonschema.Schema{}
+			for _, n := range names {
+				m[n] = &jsonschema.Schema{Type: "integer"}
+			}
+			return m
+		}
+		a1 := append(make([]string, 0, 8), "c", "a", "b", "d")
+		a2 := append(make([]string, 0, 4), "n", "y", "x")
+		short := &jsonschema.Schema{Type: "object", Properties: props("a", "b", "c", "d"), PropertyOrder: lst(a1, 1)} // lists c; a, b, d follow sorted
+		mid := &jsonschema.Schema{Type: "object", Properties: props("a", "b", "c", "d", "e"), PropertyOrder: lst(a1, 2)}
+		long := &jsonschema.Schema{Type: "object", Properties: props("a", "b", "c", "d"), PropertyOrder: lst(a1, 4)}
+		child := &jsonschema.Schema{Type: "object", Properties: props("n", "q", "p"), PropertyOrder: lst(a2, 1)}
+		parent := &jsonschema.Schema{Type: "object", Properties: map[string]*jsonschema.Schema{"n": child, "x": {Type: "string"}, "y": {Type: "boolean"}}, PropertyOrder: lst(a2, 3)}
+		return world{[]*jsonschema.Schema{short, mid, long, parent, child}, [][]string{a1[:cap(a1)], a2[:cap(a2)]}}
+	}
+	names := []string{"short", "mid", "long", "parent", "child"}
+	ref := build(false)
+	want := make([]string, len(names))
+	for i, s := range ref.subjects {
+		b, err := json.Marshal(s)
+		if err != nil {
+			want[i] = "error"
+		} else {
+			want[i] = string(b)
+		}
+	}
+	n := 0
+	var seq []int
+	var rec func()
+	rec = func() {
+		if len(seq) > 0 {
+			w := build(true)
+			before := fmt.Sprintf("%q", w.arrays)
+			var hs []string
+			for _, k := range seq {
+				hs = append(hs, names[k])
+			}
+			key := prefix + "Marshal of schemas whose PropertyOrder lists share a backing array: " + strings.Join(hs, " ; ")
+			if r.OnlyKey == "" || r.OnlyKey == key {
+				n++
+				for step, k := range seq {
+					got := "error"
+					if b, err := json.Marshal(w.subjects[k]); err == nil {
+						got = string(b)
+					}
+					if got != want[k] {
+						r.Fail(key, map[string]any{"class": "Marshal output depends on another schema's Marshal", "step": step, "alone": want[k], "in_this_history": got})
+						break
+					}
+				}
+				if after := fmt.Sprintf("%q", w.arrays); after != before {
+					r.Fail(key, map[string]any{"class": "Marshal wrote into the caller's PropertyOrder backing array", "before": before, "after": after})
+				}
+			}
+		}
+		if len(seq) == 3 {
+			return
+		}
+		for k := range names {
+			seq = append(seq, k)
+			rec()
+			seq = seq[:len(seq)-1]
+		}
+	}
+	rec()
+	r.Eval(n)
+	r.NontrivialN(n)
+	r.Set("shared_order_array_histories", n)
 }
 
 func mkProps(ps []string) map[string]*jsonschema.Schema {
@@ -285,7 +373,7 @@ func mkProps(ps []string) map[string]*jsonschema.Schema {
 
 func Run(r *ev.Run) {
 	cs := cases()
-	r.Rule("property name sets of size<=4 over {a,b,c,d,é,\"\"} x every PropertyOrder that is a permutation of a subset, such a list with names absent from properties inserted at every position, or a list with one duplicate (present or absent name); plus every name set of size<=3 over 13 names whose JSON encoding sorts differently from the name (space, !, <, &, control characters, U+2028, quote, backslash, case) with no / empty / single-name orders; each at the root, nested under properties / items / $defs / allOf / anyOf / oneOf / not / array-form items / dependencies (schema form beside a string form) / patternProperties / dependentSchemas+then with an own order on both levels, and marshalled as a value inside map[string]Schema; duplicates also with nil and empty Properties. Oracle R5: key order read from the token stream = listed names that exist, in list order, then the rest ascending; a duplicate anywhere in the tree makes Marshal fail. Histories: every sequence of <=3 Marshal calls over 8 schemas (4 of which fail, two of them half-way through a nested properties object) gives each call its initial result. Determinism: 20 marshals of every value (and of every schema For returns for the G-type catalogue, also around overridden embedded structs, 20 x For+Marshal) give identical bytes; the caller's PropertyOrder slice is unchanged afterwards. Non-trivial = every case (distinct by construction)")
+	r.Rule("property name sets of size<=4 over {a,b,c,d,é,\"\"} x every PropertyOrder that is a permutation of a subset, such a list with names absent from properties inserted at every position, or a list with one duplicate (present or absent name); plus every name set of size<=3 over 13 names whose JSON encoding sorts differently from the name (space, !, <, &, control characters, U+2028, quote, backslash, case) with no / empty / single-name orders; each at the root, nested under properties / items / $defs / allOf / anyOf / oneOf / not / array-form items / dependencies (schema form beside a string form) / patternProperties / dependentSchemas+then with an own order on both levels, and marshalled as a value inside map[string]Schema; duplicates also with nil and empty Properties. Oracle R5: key order read from the token stream = listed names that exist, in list order, then the rest ascending; a duplicate anywhere in the tree makes Marshal fail. Histories: every sequence of <=3 Marshal calls over 8 schemas (4 of which fail, two of them half-way through a nested properties object) gives each call its initial result; every sequence of <=3 Marshal calls over 5 live schemas whose PropertyOrder lists are prefixes of one backing array (siblings, parent and child) gives each the bytes it has alone and leaves the array (to its capacity) unwritten. Determinism: 20 marshals of every value (and of every schema For returns for the G-type catalogue, also around overridden embedded structs, 20 x For+Marshal) give identical bytes; the caller's PropertyOrder slice is unchanged afterwards. Non-trivial = every case (distinct by construction)")
 	r.Assume("R5 is the documented rule of Schema.PropertyOrder", "map-iteration orders are explored in the instrumented build (C19 env part); here repetition only confirms")
 	r.Set("cases", len(cs))
 	type nest struct {
